@@ -789,6 +789,178 @@ fn bdf_interpolant_history() -> Option<String> {
     None
 }
 
+/// C13: time reflection. z'(s) = -f(-s, z) from -x0 to -xend must give the mirrored trajectory, bit for bit, for the explicit
+/// methods and for the implicit ones with a user Jacobian (negation and |.| are exact in IEEE arithmetic)
+fn time_reflection() -> Option<String> {
+    struct Vdp { mu: f64, refl: bool }
+    impl Vdp { fn f(&self, t: f64, y: &[f64], d: &mut [f64]) { d[0] = y[1]; d[1] = self.mu * (1.0 - y[0] * y[0]) * y[1] - y[0] + 0.3 * t.sin(); } }
+    impl IVP for Vdp {
+        fn ode(&self, t: f64, y: &[f64], d: &mut [f64]) {
+            if self.refl { self.f(-t, y, d); for v in d.iter_mut() { *v = -*v; } } else { self.f(t, y, d); }
+        }
+        fn jac(&self, _t: f64, y: &[f64], j: &mut ivp::matrix::Matrix) {
+            let sg = if self.refl { -1.0 } else { 1.0 };
+            j[(0, 0)] = 0.0; j[(0, 1)] = sg * 1.0; j[(1, 0)] = sg * (-2.0 * self.mu * y[0] * y[1] - 1.0); j[(1, 1)] = sg * (self.mu * (1.0 - y[0] * y[0]));
+        }
+    }
+    for m in [Method::RK4, Method::RK23, Method::DOPRI5, Method::DOP853, Method::RADAU, Method::BDF] {
+        for &(mu, x0, xe, rtol) in &[(5.0f64, 0.3f64, 7.0f64, 1e-5f64), (1.0, -1.0, 4.0, 1e-7), (5.0, 6.0, 0.5, 1e-4)] {
+            let y0 = [2.0, 0.0];
+            let o = || Options::builder().method(m.clone()).rtol(rtol).atol(1e-8).build();
+            let a = solve_ivp(&Vdp { mu, refl: false }, x0, xe, &y0, o());
+            let b = solve_ivp(&Vdp { mu, refl: true }, -x0, -xe, &y0, o());
+            let (a, b) = match (a, b) { (Ok(a), Ok(b)) => (a, b), (a, b) => return Some(format!("{:?} mu={} [{}, {}]: Ok/Err differ or both fail: {:?} / {:?}", m, mu, x0, xe, a.is_ok(), b.is_ok())) };
+            if (a.nstep, a.naccpt, a.nrejct, a.nfev) != (b.nstep, b.naccpt, b.nrejct, b.nfev) || a.status != b.status {
+                return Some(format!("{:?}: forced van der Pol mu={} on [{}, {}], rtol {:e}: (nstep, naccpt, nrejct, nfev) = {:?}, the time-reflected problem on [{}, {}] gives {:?}", m, mu, x0, xe, rtol, (a.nstep, a.naccpt, a.nrejct, a.nfev), -x0, -xe, (b.nstep, b.naccpt, b.nrejct, b.nfev)));
+            }
+            for i in 0..a.t.len() {
+                if a.t[i] != -b.t[i] || a.y[i] != b.y[i] {
+                    return Some(format!("{:?}: forced van der Pol mu={} on [{}, {}], rtol {:e}: sample {}: t = {:e}, y = {:?}; the time-reflected run has t = {:e}, y = {:?}", m, mu, x0, xe, rtol, i, a.t[i], a.y[i], b.t[i], b.y[i]));
+                }
+            }
+        }
+    }
+    None
+}
+
+/// C13: scaling the state and atol of a linear homogeneous system by a power of two scales the trajectory by the same power, bit for bit
+fn pow2_scaling() -> Option<String> {
+    struct LinT;
+    impl IVP for LinT {
+        fn ode(&self, t: f64, y: &[f64], d: &mut [f64]) { d[0] = -0.5 * y[0] + (2.0 + t.cos()) * y[1]; d[1] = -(2.0 + t.cos()) * y[0] - 0.1 * y[1] + 0.3 * y[2]; d[2] = -3.0 * y[2] + 0.1 * t * y[0]; }
+        fn jac(&self, t: f64, _y: &[f64], j: &mut ivp::matrix::Matrix) {
+            j[(0, 0)] = -0.5; j[(0, 1)] = 2.0 + t.cos(); j[(0, 2)] = 0.0; j[(1, 0)] = -(2.0 + t.cos()); j[(1, 1)] = -0.1; j[(1, 2)] = 0.3; j[(2, 0)] = 0.1 * t; j[(2, 1)] = 0.0; j[(2, 2)] = -3.0;
+        }
+    }
+    for m in [Method::RK4, Method::RK23, Method::DOPRI5, Method::DOP853, Method::RADAU, Method::BDF] {
+        for &(x0, xe) in &[(0.0f64, 5.0f64), (3.0, -1.0)] {
+            let run = |k: i32| { let sc = (2.0f64).powi(k); let y0 = [1.0 * sc, 0.5 * sc, -0.25 * sc];
+                solve_ivp(&LinT, x0, xe, &y0, Options::builder().method(m.clone()).rtol(1e-6).atol(1e-9 * sc).build()) };
+            let base = match run(0) { Ok(s) => s, Err(e) => return Some(format!("{:?}: base run fails: {:?}", m, e)) };
+            for k in [10i32, -7, 40] {
+                let sc = (2.0f64).powi(k);
+                let s = match run(k) { Ok(s) => s, Err(e) => return Some(format!("{:?}: run scaled by 2^{} fails: {:?}", m, k, e)) };
+                if s.t != base.t || (s.nstep, s.naccpt, s.nrejct, s.nfev) != (base.nstep, base.naccpt, base.nrejct, base.nfev) {
+                    return Some(format!("{:?}: linear system on [{}, {}] with state and atol scaled by 2^{}: {} samples, (nstep, naccpt, nrejct, nfev) = {:?}; unscaled: {} samples, {:?}", m, x0, xe, k, s.t.len(), (s.nstep, s.naccpt, s.nrejct, s.nfev), base.t.len(), (base.nstep, base.naccpt, base.nrejct, base.nfev)));
+                }
+                for i in 0..s.t.len() { for c in 0..3 {
+                    if s.y[i][c] != base.y[i][c] * sc { return Some(format!("{:?}: linear system on [{}, {}] scaled by 2^{}: sample {} component {}: {:e}, 2^{} times the unscaled value is {:e}", m, x0, xe, k, i, c, s.y[i][c], k, base.y[i][c] * sc)); }
+                } }
+            }
+        }
+    }
+    None
+}
+
+/// C12: dense_output, t_eval and a non-terminal event change only what is reported: steps, states and statistics are those of the plain run
+fn output_options() -> Option<String> {
+    struct Osc { ev: bool }
+    impl IVP for Osc {
+        fn ode(&self, t: f64, y: &[f64], d: &mut [f64]) { d[0] = y[1]; d[1] = -y[0] + 0.1 * t.sin(); }
+        fn n_events(&self) -> usize { if self.ev { 1 } else { 0 } }
+        fn events(&self, _t: f64, y: &[f64], out: &mut [f64]) { if self.ev { out[0] = y[0]; } }
+    }
+    for m in [Method::RK4, Method::RK23, Method::DOPRI5, Method::DOP853, Method::RADAU, Method::BDF] {
+        for &(x0, xe) in &[(0.0f64, 10.0f64), (4.0, -3.0)] {
+            let y0 = [1.0, 0.0];
+            let o = || Options::builder().method(m.clone()).rtol(1e-7).atol(1e-9);
+            let plain = match solve_ivp(&Osc { ev: false }, x0, xe, &y0, o().build()) { Ok(s) => s, Err(e) => return Some(format!("{:?}: plain run fails: {:?}", m, e)) };
+            let te: Vec<f64> = (0..=20).map(|i| x0 + (xe - x0) * i as f64 / 20.0).collect();
+            let variants: Vec<(&str, Result<Solution, ivp::error::Error>)> = vec![
+                ("dense_output", solve_ivp(&Osc { ev: false }, x0, xe, &y0, o().dense_output(true).build())),
+                ("t_eval", solve_ivp(&Osc { ev: false }, x0, xe, &y0, o().t_eval(te.clone()).build())),
+                ("a non-terminal event", solve_ivp(&Osc { ev: true }, x0, xe, &y0, o().build())),
+            ];
+            for (name, r) in variants {
+                let s = match r { Ok(s) => s, Err(e) => return Some(format!("{:?}: run with {} fails: {:?}", m, name, e)) };
+                let st = |s: &Solution| (s.nfev, s.njev, s.nlu, s.nstep, s.naccpt, s.nrejct);
+                if st(&s) != st(&plain) || s.status != plain.status {
+                    return Some(format!("{:?}: oscillator on [{}, {}] with {}: (nfev, njev, nlu, nstep, naccpt, nrejct) = {:?}, the plain run has {:?}", m, x0, xe, name, st(&s), st(&plain)));
+                }
+                if name != "t_eval" && (s.t != plain.t || s.y != plain.y) {
+                    return Some(format!("{:?}: oscillator on [{}, {}] with {}: the accepted steps or states differ from the plain run ({} vs {} samples)", m, x0, xe, name, s.t.len(), plain.t.len()));
+                }
+                // with t_eval the value at xend is the step interpolant evaluated there: equal to the final state to rounding (C05/C06)
+                let close = |a: &Vec<f64>, b: &Vec<f64>| a.len() == b.len() && a.iter().zip(b.iter()).all(|(p, q)| (p - q).abs() <= 1e-13 * (1.0 + q.abs()));
+                if name == "t_eval" && !(s.y.last().is_some() && close(s.y.last().unwrap(), plain.y.last().unwrap())) {
+                    return Some(format!("{:?}: oscillator on [{}, {}] with t_eval ending at xend: final state {:?}, the plain run ends with {:?}", m, x0, xe, s.y.last(), plain.y.last()));
+                }
+            }
+        }
+    }
+    None
+}
+
+/// C20: the binding's callable `sol` (ContinuousOutput::evaluate_extrapolate) returns, inside the span, the numbers Solution::sol returns
+fn extrapolate_equals_sol() -> Option<String> {
+    struct Osc;
+    impl IVP for Osc { fn ode(&self, _t: f64, y: &[f64], d: &mut [f64]) { d[0] = y[1]; d[1] = -y[0]; } }
+    for m in [Method::RK4, Method::RK23, Method::DOPRI5, Method::DOP853, Method::RADAU, Method::BDF] {
+        for &(x0, xe) in &[(0.0f64, 10.0f64), (10.0, 0.0), (-2.0, -9.0)] {
+            let s = match solve_ivp(&Osc, x0, xe, &[1.0, 0.0], Options::builder().method(m.clone()).dense_output(true).build()) { Ok(s) => s, Err(e) => return Some(format!("{:?}: {:?}", m, e)) };
+            let dense = match s.continuous_sol.as_ref() { Some(d) => d, None => return Some(format!("{:?}: dense output requested, none returned", m)) };
+            let mut ts: Vec<f64> = (1..40).map(|i| x0 + (xe - x0) * i as f64 / 40.0).collect();
+            ts.extend(s.t.iter().cloned());
+            for t in ts {
+                let a = s.sol(t).ok(); let b = dense.evaluate_extrapolate(t);
+                if a.is_none() || a != b { return Some(format!("{:?} on [{}, {}]: at t = {:e} Solution::sol gives {:?}, evaluate_extrapolate (the Python callable) gives {:?}", m, x0, xe, t, a, b)); }
+            }
+        }
+    }
+    None
+}
+
+/// C04: a blow-up or a NaN right-hand side at negative times must end the run (watchdog: 20 s)
+fn negative_time_blowup() -> Option<String> {
+    use std::sync::mpsc; use std::time::Duration;
+    struct Blow; impl IVP for Blow { fn ode(&self, _t: f64, y: &[f64], d: &mut [f64]) { d[0] = y[0] * y[0]; } }
+    struct Nan; impl IVP for Nan { fn ode(&self, t: f64, _y: &[f64], d: &mut [f64]) { d[0] = (-1.0 - t).sqrt(); } }
+    for m in [Method::RK23, Method::DOPRI5, Method::DOP853, Method::RADAU, Method::BDF] {
+        for which in 0..2 {
+            let (tx, rx) = mpsc::channel(); let mm = m.clone();
+            std::thread::spawn(move || {
+                let r = if which == 0 { solve_ivp(&Blow, -2.0, 0.0, &[1.0], Options::builder().method(mm).build()) } else { solve_ivp(&Nan, -2.0, 0.0, &[0.0], Options::builder().method(mm).build()) };
+                let _ = tx.send(r.map(|s| (s.status, s.y.iter().all(|v| v.iter().all(|c| c.is_finite())))));
+            });
+            let what = if which == 0 { "y' = y^2, y(-2) = 1 on [-2, 0] (blow-up at t = -1)" } else { "y' = sqrt(-1 - t) on [-2, 0] (NaN for t > -1)" };
+            match rx.recv_timeout(Duration::from_secs(20)) {
+                Err(_) => return Some(format!("{:?}: {}: solve_ivp did not return within 20 s", m, what)),
+                Ok(Ok((st, finite))) => { if st == Status::Success && !finite { return Some(format!("{:?}: {}: Success with non-finite states", m, what)); } }
+                Ok(Err(_)) => {}
+            }
+        }
+    }
+    None
+}
+
+/// C02: one Radau step on y' = lambda y reproduces the (2,3) Pade approximant of exp(h lambda)
+fn radau_pade() -> Option<String> {
+    use ivp::methods::RADAU;
+    use ivp::solout::SolOut;
+    struct Lam(f64);
+    impl IVP for Lam {
+        fn ode(&self, _t: f64, y: &[f64], d: &mut [f64]) { d[0] = self.0 * y[0]; }
+        fn jac(&self, _t: f64, _y: &[f64], j: &mut ivp::matrix::Matrix) { j[(0, 0)] = self.0; }
+    }
+    struct Grab { ys: Vec<(f64, f64)> }
+    impl SolOut for Grab {
+        fn solout(&mut self, _xold: f64, x: &mut f64, y: &mut [f64], _i: Option<&StepInterpolant<'_>>) -> ControlFlag { self.ys.push((*x, y[0])); ControlFlag::Continue }
+    }
+    for &(lam, h) in &[(-1.0f64, 0.1f64), (-3.0, 0.05), (2.0, 0.125), (-1.0, -0.1), (-50.0, 0.01)] {
+        let mut g = Grab { ys: vec![] };
+        let r = RADAU::builder().first_step(h.abs()).max_step(h.abs()).newton_tol(1e-14).build().solve(&Lam(lam), 0.0, &[1.0], h, 1e-2.into(), 1e-2.into(), Some(&mut g));
+        if r.is_err() { return Some(format!("RADAU single step fails: lambda = {}, h = {}", lam, h)); }
+        if g.ys.len() != 2 { continue; }   // not a single accepted step: nothing to compare
+        let z = lam * h;
+        let pade = (1.0 + 0.4 * z + 0.05 * z * z) / (1.0 - 0.6 * z + 0.15 * z * z - z * z * z / 60.0);
+        let got = g.ys[1].1;
+        if !((got - pade).abs() <= 2e-12 * pade.abs()) {
+            return Some(format!("RADAU: one step of y' = {} y with h = {}: y1 = {:.16e}, the (2,3) Pade approximant of exp(h lambda) is {:.16e} (relative difference {:.2e})", lam, h, got, pade, ((got - pade) / pade).abs()));
+        }
+    }
+    None
+}
+
 fn main() {
     let which = std::env::args().nth(1).unwrap_or_default();
     let r = match which.as_str() {
@@ -799,6 +971,12 @@ fn main() {
         "default_mass" => default_mass(),
         "matrix_dense_model" => matrix_dense_model(),
         "lu_small" => lu_small(),
+        "time_reflection" => time_reflection(),
+        "pow2_scaling" => pow2_scaling(),
+        "output_options" => output_options(),
+        "extrapolate_equals_sol" => extrapolate_equals_sol(),
+        "negative_time_blowup" => negative_time_blowup(),
+        "radau_pade" => radau_pade(),
         "bdf_interpolant_history" => bdf_interpolant_history(),
         "zero_length_dense" => zero_length_dense(),
         "events_multi_in_step" => events_multi_in_step(),
